@@ -420,10 +420,11 @@ Record var := mkVar {
 }.
 
 (* shape of the `bijector` argument and whether bijector args/kwargs were given *)
-Inductive bkind := KInst (args : bool) | KCls (args : bool) | KDefault | KOther.
+(* KClsBad: a bijector class with arguments its constructor rejects (e.g. a misspelt keyword) *)
+Inductive bkind := KInst (args : bool) | KCls (args : bool) | KDefault | KOther | KClsBad.
 
 Inductive terr :=
-| EWeak | ENoDist | EClsNoArgs | EInstArgs | ENoDefault | EBadType | EDupName.
+| EWeak | ENoDist | EClsNoArgs | EInstArgs | ENoDefault | EBadType | EDupName | EBadArgs.
 
 Definition tname (n : string) : string := (n ++ "_transformed")%string.
 
@@ -445,6 +446,7 @@ Definition var_transform_s (k : bkind) (v : var) : terr + (var * var) :=
        | KInst true => inl EInstArgs
        | KInst false => inr (orig_after v, new_var v)
        | KOther => inl EBadType
+       | KClsBad => inl EBadArgs       (* dist_node_transformed.init_dist() raises *)
        end.
 
 (* model.py:806-942; a class without arguments only warns there *)
@@ -454,6 +456,7 @@ Definition gb_transform_s (k : bkind) (v : var) : terr + (var * var) :=
   else match k with
        | KInst true => inl EInstArgs
        | KOther => inl EBadType
+       | KClsBad => inl EBadArgs
        | KDefault => if v_default v then inr (orig_after v, new_var v) else inl ENoDefault
        | _ => inr (orig_after v, new_var v)
        end.
@@ -505,5 +508,40 @@ Fixpoint chain_s (ks : list (bool * bkind)) (v : var) : terr + list var :=
           | inl e => inl e
           | inr l => inr (v' :: l)
           end
+      end
+  end.
+
+(* ---- refused transformations and continued use ----------------------------------------------- *)
+(* What a refused call leaves behind.  Both entry points set `auto_transform = False` ("avoid infinite
+   recursion") before the later checks; nothing else is touched before an exception:
+   Var.transform:          weak / no distribution / class without arguments are checked before that line;
+   GraphBuilder.transform: weak / no distribution / instance with arguments are checked before it. *)
+Definition clear_auto (v : var) : var :=
+  mkVar (v_name v) (v_parameter v) (v_observed v) (v_has_dist v) (v_weak v) false (v_default v).
+
+Definition refusal_state (var_path : bool) (e : terr) (v : var) : var :=
+  if var_path then
+    match e with EWeak | ENoDist | EClsNoArgs => v | _ => clear_auto v end
+  else
+    match e with EWeak | ENoDist | EInstArgs => v | _ => clear_auto v end.
+
+Definition transform_s (var_path : bool) (k : bkind) (v : var) : terr + (var * var) :=
+  if var_path then var_transform_s k v else gb_transform_s k v.
+
+(* one call: the variable afterwards and the new variable if the call succeeded *)
+Definition attempt_s (var_path : bool) (k : bkind) (v : var) : var * option var :=
+  match transform_s var_path k v with
+  | inl e => (refusal_state var_path e v, None)
+  | inr (v', tv) => (v', Some tv)
+  end.
+
+(* a history of calls on the same variable, up to and including the first successful one *)
+Fixpoint history_s (ks : list (bool * bkind)) (v : var) : var * option var :=
+  match ks with
+  | [] => (v, None)
+  | (vp, k) :: rest =>
+      match attempt_s vp k v with
+      | (v1, None) => history_s rest v1
+      | r => r
       end
   end.
